@@ -213,6 +213,10 @@ def _is_valid(rep, M, C, CRCF, RO, DATA, END, file):
         if other_cmp:
             g, pol = other_cmp[0]
             verdict = _textual_compare(g)
+            if g[1] in ("In", "NotIn") and g[3][0] == "tuple" and len(g[3][1]) > 1 and any(strip_epoch(x) == CALC for x in g[3][1]) and EXP(strip_epoch(g[2])):
+                others_ = [x for x in g[3][1] if strip_epoch(x) != CALC]
+                verdict = (f"the transmitted checksum is accepted when it equals any of {len(g[3][1])} values (the computed CRC or {show_sv(others_[0])[:50]}): a checksum that differs from the "
+                           "computed CRC-16 can be reported valid")
             if g[1] in ("Lt", "LtE", "Gt", "GtE") and {strip_epoch(g[2]), strip_epoch(g[3])} & {CALC} and (EXP(strip_epoch(g[2])) or EXP(strip_epoch(g[3]))):
                 verdict = "the transmitted checksum is compared with the computed CRC by an ordering test instead of equality: some differing checksums are accepted"
             if verdict is not None:
